@@ -13,6 +13,17 @@ checks at each call: %rsp+8 is 16-byte aligned, DF clear, %rbx %rbp %r12-%r15 / 
 word unchanged by the callee, and records %al (variadic calls made by chibicc: vector registers used <= %al <= 8).
 models/c06_abi.py (psABI 3.2.3 classifier) places the probes on the register-exhaustion boundaries, predicts %al
 (cross-checked against what gcc callers put there) and labels failures; it never decides byte integrity.
+Stages VS / WS (variadic callee whose NAMED parameters are partly passed on the stack; the unnamed arguments fetched from the
+overflow area start behind them, rounded up to 8): the named list is [long x g, double x s] + item + follower with
+(g,s) in {(0,0),(6,8),(6,0),(0,8),(5,8),(6,7)} restricted to those where the psABI model puts the item on the stack;
+item in {struct{char[n]} for every n in 1..40 (1..16 spilled because the registers ran out, 17..40 class MEMORY), 12/20-byte
+int, float and mixed structs, 4/6/16-byte structs, 4/20-byte unions, every scalar}; follower (item not last) in {none, long,
+double, long double, struct{char[19]}, struct{char[3]}+int} or a struct{char[21]} in front of everything; then unnamed
+fillers that use up the remaining GP and SSE registers (both / GP only / SSE only / none), then a va_arg probe of each
+kind {int, long, double, long double, pointer, 12-byte INTEGER struct, 12-byte SSE struct, struct{long,double}, 24-byte
+struct, struct{char[21]}} and a trailing long and double; also with the hidden return pointer in %rdi; WS passes the
+va_list of the same shapes to a consumer built by the other / the same compiler.  quick takes the first two stack modes per
+item, the first four followers and the both/none fillers; thorough the whole product.
 A separate family uses asm callees/callers that leave noise in the bits the ABI leaves undefined (narrow return
 values, narrow arguments) and compares chibicc-compiled consumers with gcc-compiled ones.
 """
@@ -22,7 +33,7 @@ from models import c06_abi as abi
 from models.c06_abi import P
 
 LEVEL = "exploration"
-BUDGET = {"quick": 420, "thorough": 2400}
+BUDGET = {"quick": 420, "thorough": 3600}
 
 HARNESS = os.path.join(core.VERIF, "harness")
 CFGNAME = {0: "cc->gcc", 1: "gcc->cc", 2: "cc->cc", 3: "gcc->gcc"}
@@ -110,6 +121,60 @@ class Sig:
         return (self.args, self.ret, self.nnamed, self.ctx)
 
 
+# ---- stages VS / WS: named parameters that travel ON THE STACK in front of the unnamed arguments ------------------
+def CA(n): return ("s", (("a", C, n),))          # struct { char m0[n]; }: size n, alignment 1
+
+
+# "odd" named items: every aggregate size 1..40 (all residues mod 8, in registers up to 16 bytes = spilled only when the
+# registers ran out, class MEMORY from 17 on), int/float/mixed structs and unions of 4, 6, 12, 20 bytes, and every scalar
+VS_MEMORY = [CA(n) for n in range(17, 41)] + [S(I, I, I, I, I), U(("a", C, 19), SH), S(F, F, F, F, F)]
+VS_SMALL = [CA(n) for n in range(1, 17)] + [S(I, I, I), S(F, F, F), S(F), S(A(F), I), S(I, A(F)), S(SH, SH, SH), U(("a", C, 3), SH), S(D, F), S(L, I)]
+VS_SCALAR = [P(x) for x in ("char", "short", "int", "bool", "float", "long", "ptr", "double", "ldouble")]
+# (GP, SSE) registers taken by the named long/double fillers in front of the item: nothing, GP exhausted, SSE exhausted, both,
+# one GP left (a 2-GP struct spills, a later long does not), one SSE left
+VS_MODES = [(0, 0), (6, 8), (6, 0), (0, 8), (5, 8), (6, 7)]
+# what follows the item in the NAMED list (non-last position): nothing; a long / double (on the stack when the registers are
+# exhausted, 8-aligned); a long double (16-aligned); another odd-sized MEMORY struct; and one list with an odd struct in front
+VS_FOLLOW = [(), (LONG,), (LDOUBLE,), (CA(19),), (DOUBLE,), (CA(3), INT)]
+VS_KINDS = [INT, LONG, DOUBLE, LDOUBLE, PTR, S(I, I, I), S(F, F, F), S(L, D), S(L, L, L), CA(21)]
+
+
+def vs_named_lists(tier):
+    """-> [(named list, index of the odd item)]: every list has at least one named parameter that is passed on the stack
+    (checked with the psABI model), the item is last or followed by further named parameters."""
+    quick = tier == "quick"
+    out, seen = [], set()
+    for items, modes, nmode in ((VS_MEMORY, VS_MODES, 2 if quick else 6), (VS_SMALL + VS_SCALAR, VS_MODES[1:], 2 if quick else 5)):
+        for t in items:
+            taken = 0
+            for g, s in modes:
+                pre = [LONG] * g + [DOUBLE] * s
+                places, _, _ = abi.assign(pre + [t])
+                if places[-1][0] != "mem":
+                    continue
+                if taken >= nmode:
+                    break
+                taken += 1
+                for fo in (VS_FOLLOW[:4] if quick else VS_FOLLOW):
+                    nm = tuple(pre + [t] + list(fo))
+                    if nm not in seen:
+                        seen.add(nm); out.append((list(nm), len(pre)))
+                if not quick or t in (CA(20), CA(21), S(I, I, I)):
+                    nm = tuple([CA(21)] + pre + [t])         # an odd-sized stack parameter FIRST, registers filled after it
+                    if nm not in seen:
+                        seen.add(nm); out.append((list(nm), len(pre) + 1))
+    return out
+
+
+def vs_tail(named, ret, how):
+    """Unnamed fillers that use up the argument registers the named parameters left free: how = 'x' both files, 'g' GP only,
+    's' SSE only, '0' none."""
+    _, gp, sse = abi.assign(named, ret)
+    g = abi.GP_MAX - gp if how in "xg" else 0
+    s = abi.SSE_MAX - sse if how in "xs" else 0
+    return [LONG if i % 2 else INT for i in range(g)] + [DOUBLE] * s
+
+
 def boundary_positions(t, ret):
     """(g, s) filler counts that put `t` on every side of the register-exhaustion boundary."""
     hidden = 1 if abi.ret_where(ret) == "memory" else 0
@@ -187,6 +252,43 @@ def gen_sigs(tier):
                 for s in ss:
                     gf = [LONG if i % 2 else INT for i in range(g)]
                     sigs.append(Sig([INT] + gf + [DOUBLE] * s + [t, LONG, DOUBLE], r, 1 + g + s, "V", nnamed=1))
+    # VS: variadic callees whose NAMED parameters (partly) travel on the stack: the unnamed arguments fetched from the overflow
+    # area start behind them (after rounding up to 8), whatever the size of the last stack-passed named parameter is
+    vlists = vs_named_lists(tier)
+    memkinds = (LDOUBLE, S(L, L, L), CA(21))
+    for nm, idx in vlists:
+        for t in VS_KINDS:
+            for how in "x0" if quick else "xgs0":
+                if quick and how == "0" and t not in memkinds + (INT,):
+                    continue
+                if how in "gs" and t not in (INT, DOUBLE, LDOUBLE, S(L, D), S(L, L, L)):
+                    continue
+                fill = vs_tail(nm, INT, how)
+                sigs.append(Sig(nm + fill + [t, LONG, DOUBLE], INT, len(nm) + len(fill), "VS", nnamed=len(nm)))
+    # ... and with the hidden return pointer taking the first GP register of the named list
+    for nm, idx in vlists:
+        if nm[0] == LONG and (not quick or len(nm) == idx + 1):
+            for t in (INT, DOUBLE, S(L, L, L)) if quick else VS_KINDS:
+                fill = vs_tail(nm[1:], S(L, L, L), "x")
+                sigs.append(Sig(nm[1:] + fill + [t, LONG, DOUBLE], S(L, L, L), len(nm) - 1 + len(fill), "VS", nnamed=len(nm) - 1))
+    # WS: the same named lists, the va_list handed to a function built by the other / the same compiler
+    for nm, idx in vlists:
+        if quick and (len(nm) != idx + 1 or (nm[:idx] not in ([], [LONG] * 6 + [DOUBLE] * 8) and abi.arg_need(nm[idx]) is None)):
+            continue            # quick: item last, MEMORY items with no fillers or all registers taken
+        if not quick and len(nm) > idx + 1 and nm[idx + 1:] not in ([LONG], [LDOUBLE], [CA(19)]):
+            continue
+        for t in VS_KINDS:
+            for cx in ("vfwdO", "vfwdS"):
+                fill = vs_tail(nm, INT, "x")
+                sigs.append(Sig(nm + fill + [t, LONG, DOUBLE], INT, len(nm) + len(fill), "WS", nnamed=len(nm), ctx=cx))
+    # M: fixed signatures with the VS aggregates (every size 1..40): on the stack followed by further stack arguments, and returned
+    for t in VS_MEMORY + VS_SMALL:
+        full = [LONG] * 6 + [DOUBLE] * 8
+        sigs.append(Sig(full + [t, INT, DOUBLE, t, LONG], INT, 14, "M"))
+        sigs.append(Sig(full[1:] + [t, INT, DOUBLE, t, LONG], t, 13, "M"))
+        if abi.arg_need(t) is None:
+            sigs.append(Sig([t, LDOUBLE, t, S(L, L, L), t, LONG], INT, 0, "M"))
+            sigs.append(Sig([t, t], t, 0, "M"))
     # K: callee declared without a prototype at the call site (arguments already of promoted types)
     for t in [INT, LONG, DOUBLE, PTR, LDOUBLE, S(L, L), S(D, D), S(L, D), S(F, F, F), S(C), S(L, L, L), S(LD)]:
         for g in (0, 5, 6, 7):
@@ -485,7 +587,21 @@ def arg_label(sg, k):
     lab = "%s@%s,%s" % (abi.class_pattern(t), abi.pressure(t, pl[1], pl[2]), "in-regs" if pl[0] == "reg" else "in-memory")
     if sg.nnamed is not None:
         lab += ",named" if k < sg.nnamed else ",va_arg"
+        if k >= sg.nnamed and pl[0] == "mem" and named_stack_end(sg, places) % 8:
+            lab += ",named-stack-args-end-off-the-8-grid"
     return lab
+
+
+def named_stack_end(sg, places=None):
+    """Offset (from the first stack argument) at which the named parameters passed on the stack end."""
+    if places is None:
+        places, _, _ = abi.assign(sg.args, sg.ret)
+    end = 0
+    for j in range(sg.nnamed or 0):
+        if places[j][0] == "mem":
+            sz, al, _ = abi.layout(sg.args[j])
+            end = (end + max(8, al) - 1) // max(8, al) * max(8, al) + sz
+    return end
 
 
 def classify_failure(sg, cfg, d):
@@ -721,6 +837,21 @@ def run(ctx):
                 unit, stubs, drv = build_batch([sg])
                 ctx.violation(sig, desc, files={"unit.c": unit, "stubs.S": stubs, "driver.c": drv, "c06_thunk.S": thunk_src},
                               replay=REPLAY % {"ccfail": 0, "lin": cfg})
+    # vacuity guard of VS/WS: named parameters on the stack ending off the eightbyte grid, followed by a va_arg served from memory
+    offgrid = resid = 0
+    if not only or "VS" in only.split(","):
+        rs = set()
+        for sg in sigs:
+            if sg.stage in ("VS", "WS"):
+                places, _, _ = abi.assign(sg.args, sg.ret)
+                e = named_stack_end(sg, places)
+                if e == 0:
+                    raise core.HarnessError("VS signature without a stack-passed named parameter: " + sg.cid)
+                if e % 8 and any(pl[0] == "mem" for pl in places[sg.nnamed:]):
+                    offgrid += 1; rs.add(e % 8)
+        resid = len(rs)
+        if resid != 7:
+            raise core.HarnessError("VS enumeration degenerate: named stack area ends at residues %s mod 8" % sorted(rs))
     if odis:
         raise core.HarnessError("%d oracle disagreements (gcc->gcc failed or model %%al != gcc %%al), see evidence samples" % odis)
     if unconf:
@@ -744,10 +875,16 @@ def run(ctx):
                      "exactly fit / miss by one GP or SSE register; B: %d probes (9 primitives + one aggregate per (size, eightbyte classes) shape) x "
                      "g GP fillers x s SSE fillers x trailing primitive; B2: probe first / interleaved fillers; C: every return class x g x s x struct arg; "
                      "D: pairs of aggregate probes; V: variadic callees (named prefix of 1-2 incl. struct/long double/MEMORY struct) x va_arg of "
-                     "int,long,double,pointer,long double,structs; X: call nested under 1-3 pending long/double temporaries on either side "
+                     "int,long,double,pointer,long double,structs; VS: variadic callees with NAMED parameters on the stack: %d named lists = [long x g, double x s] + item + follower, "
+                     "(g,s) in {(0,0),(6,8),(6,0),(0,8),(5,8),(6,7)} where the item is stack-passed%s, item in {struct{char[n]} n=1..40, 12/20-byte int/float/mixed structs, "
+                     "4/6/16-byte structs, 4/20-byte unions, 9 scalars} (%d items), follower in {none,long,long double,struct{char[19]}%s} or struct{char[21]} first, "
+                     "x unnamed fillers exhausting {both%s,no} register files x va_arg probe in {int,long,double,long double,pointer,s(i,i,i),s(f,f,f),s(l,d),s(l,l,l),struct{char[21]}} "
+                     "+ trailing long,double, + hidden-return-pointer variants; M: the same aggregates in fixed signatures, on the stack in front of further stack arguments and as return type; WS: the VS lists with the va_list handed to the other/same compiler's consumer; X: call nested under 1-3 pending long/double temporaries on either side "
                      "and with argument 0/probe/last produced by an inner call; K: callee declared without prototype at the call site; "
                      "W: va_list handed to a function built by the other compiler; G: narrow return values / parameters with noise in undefined bits"
-                     % (2 if ctx.tier == "quick" else 4, len(NAMED), len(BIG), len(X87), len(PRIMS) + nreps + 5))
+                     % (2 if ctx.tier == "quick" else 4, len(NAMED), len(BIG), len(X87), len(PRIMS) + nreps + 5, len(vs_named_lists(ctx.tier)),
+                        " (quick: the first two such modes per item)" if ctx.tier == "quick" else "", len(VS_MEMORY + VS_SMALL + VS_SCALAR), "" if ctx.tier == "quick" else ",double,struct{char[3]}+int", "" if ctx.tier == "quick" else ",GP only,SSE only"),
+              named_stack_lists=len(vs_named_lists(ctx.tier)), named_stack_end_off_grid_signatures=offgrid, named_stack_item_sizes="1..40 (every residue mod 8, last and non-last)")
     for sg in (sigs[0], sigs[len(sigs) // 3], sigs[2 * len(sigs) // 3], sigs[-1]):
         ctx.sample({"signature": sg.cid, "prototype": proto_text(sg)})
     ctx.assume("gcc 12 -O0 is ABI-conforming; the gcc->gcc pairing of every signature passes (enforced)")
